@@ -69,6 +69,48 @@ def confirm_timeout(make_parser, text, lines=300000):
         sys.settrace(None)
 
 
+def isolated_batch(texts, per_input=3.0):
+    """parse texts in a child process; returns [(record-outcome or None, raised, timed_out)]"""
+    import select
+    import subprocess
+    tf = os.path.join(core.scratch(), 'c01_texts_%d.json' % len(os.listdir(core.scratch())))
+    json.dump(texts, open(tf, 'w'))
+    res = [None] * len(texts)
+    start = 0
+    while start < len(texts):
+        ch = subprocess.Popen(['/venv/bin/python', '-u', os.path.join(core.VERIF, 'harness', 'c01_child.py'),
+                               core.lib_path(), tf, core.VERIF, str(start)], stdout=subprocess.PIPE, stderr=subprocess.DEVNULL,
+                              universal_newlines=True)
+        cur = None
+        try:
+            while True:
+                r, _, _ = select.select([ch.stdout], [], [], per_input if cur is not None else 20.0)
+                if not r:
+                    if cur is None:
+                        raise core.MachineryError('C01 child process did not start')
+                    res[cur] = (None, False, True)       # this input did not come back
+                    start = cur + 1
+                    break
+                ln = ch.stdout.readline()
+                if not ln:
+                    if cur is not None and res[cur] is None:
+                        res[cur] = (None, True, False)   # the child died on this input
+                        start = cur + 1
+                    else:
+                        start = len(texts)
+                    break
+                if ln.startswith('BEGIN '):
+                    cur = int(ln.split()[1])
+                elif ln.startswith('END '):
+                    d = json.loads(ln[4:])
+                    res[d['i']] = (d['out'], d['raised'], False)
+                    start = d['i'] + 1
+        finally:
+            ch.kill()
+            ch.wait()
+    return res
+
+
 def observation(kind, text, rec, raised, timed_out, spec=False, ast=None, env=None, extra=None):
     o = {'kind': kind, 'formula': text, 'raised': raised, 'timed_out': timed_out, 'spec': spec,
          'out': outcome(rec) if rec is not None else {'keys': [], 'res': {'t': 'blank'}, 'err': '', 'errkind': 'none'},
@@ -298,15 +340,26 @@ def main(tier, replay=None):
         n = rng.randint(0, 12)
         texts.append(''.join(chr(rng.choice([rng.randrange(32, 127), rng.randrange(0, 0x300), rng.randrange(0, 0x11000)]))
                              for _ in range(n)).encode('utf-16', 'surrogatepass').decode('utf-16', 'replace'))
-    p = mk_parser(lib)
-    for s in texts:
-        rec, raised, timed = guarded_parse(p, s)
-        obs.append(observation('text', s, rec, raised, timed))
+    # long inputs: bounded time must not depend on the length of an unfinished literal, the nesting depth, ...
+    for q in ('"', "'"):
+        for n in (25, 40, 80, 200):
+            texts += [q + 'a' * n, 'SUM(1,' + q + 'ab cd ' * (n // 6), q + 'x\\' * (n // 2), '1+' + q + ' ' * n + 'z']
+        for _ in range(20 if quick else 200):
+            texts.append(q + ''.join(rng.choice('ab \\(),;+1#') for _ in range(rng.randint(30, 120))))
+    for n in (50, 400):
+        texts += ['(' * n + '1' + ')' * n, '(' * n + '1', '-' * n + '1', '1+' * n + '1', '1' * n, 'A' * n + '1',
+                  'SUM(' + ','.join(['1'] * n) + ')', '{' + ';'.join(['1'] * n) + '}', 'SUM(' * n + '1' + ')' * n,
+                  '"a"&' * n + '"b"', '#' * n, '1' + '%' * n, 'IF(' * n + '1']
+    for i, (out, raised, timed) in enumerate(isolated_batch(texts)):
+        o = observation('text', texts[i], None, raised, timed)
+        if out is not None:
+            o['out'] = out
+        obs.append(o)
     run.extra['texts'] = len(obs) - n0
     # confirm timeouts deterministically
     for o in obs:
         if o['timed_out']:
-            if o['kind'] == 'fault':
+            if o['kind'] in ('fault', 'text'):
                 continue
             def mk():
                 q = mk_parser(lib)
